@@ -241,6 +241,46 @@ func runC14(r *Run) {
 			}
 		}
 	}
+	// many exchanges left half open by other clients (abandoned first legs, rejected attempts) must
+	// not keep a client that knows the password and follows the exchange from being authenticated
+	{
+		server := authntlm.NewNTLMAuth(database.NewConfig([]authconfig.UserConfig{{Username: "alice", Password: "secret1"}}))
+		cl0 := ntlm.V2ClientSession{}
+		cl0.SetUserInfo("mallory", "x", "")
+		neg, _ := cl0.GenerateNegotiateMessage()
+		negB64 := base64.StdEncoding.EncodeToString(neg.Bytes())
+		nAbandoned := r.N(3000, 20000)
+		for i := 0; i < nAbandoned; i++ {
+			server.Authenticate(&auth.NtlmRequest{Session: fmt.Sprintf("198.51.100.%d:%d", i%250, 1024+i), NtlmMessage: negB64})
+		}
+		cl := ntlm.V2ClientSession{}
+		cl.SetUserInfo("alice", "secret1", "")
+		nm, _ := cl.GenerateNegotiateMessage()
+		out := "no challenge"
+		resp, err := server.Authenticate(&auth.NtlmRequest{Session: "203.0.113.5:50000", NtlmMessage: base64.StdEncoding.EncodeToString(nm.Bytes())})
+		if err == nil && resp != nil && resp.NtlmMessage != "" {
+			if cb, e := base64.StdEncoding.DecodeString(resp.NtlmMessage); e == nil {
+				if cm, e := ntlm.ParseChallengeMessage(cb); e == nil {
+					cl.ProcessChallengeMessage(cm)
+					if am, e := cl.GenerateAuthenticateMessage(); e == nil {
+						r2, e2 := server.Authenticate(&auth.NtlmRequest{Session: "203.0.113.5:50000", NtlmMessage: base64.StdEncoding.EncodeToString(am.Bytes())})
+						out = fmt.Sprintf("authenticated=%v user=%q err=%v", r2 != nil && r2.Authenticated, func() string {
+							if r2 != nil {
+								return r2.Username
+							}
+							return ""
+						}(), e2)
+					}
+				}
+			}
+		} else {
+			out = fmt.Sprintf("negotiate refused: %v", err)
+		}
+		r.Count("after-abandoned-exchanges")
+		if !strings.HasPrefix(out, "authenticated=true user=\"alice\"") {
+			r.Violation("c14-complete", "a client that knows the password and followed the exchange was not authenticated", fmt.Sprintf("%d negotiate messages on distinct sessions, never answered; then alice (password known) runs a regular exchange on a new session: %s\n", nAbandoned, out))
+		}
+	}
 	r.extra["model_disagreements"] = drift
 	if drift > 0 && !r.HasViolation() {
 		r.Unproven(fmt.Sprintf("correspondence Ntlm.step = NTLMAuth.Authenticate broke on %d histories with no wrongly authenticated or wrongly refused user found", drift), first)
